@@ -373,7 +373,7 @@ VARIANTS: list[dict] = (
        dict(compress_game=('dprp',)), dict(compress_game=('sprp', 'dprp', 'xtra'), extra_game=True),
        dict(extra_game=True), dict(layout='l4d2', compress=('ENTITIES', 'BRUSHES'), compress_game=('dprp',)),
        dict(n_extra=0), dict(n_extra=2, layout='v21'), dict(water=False), dict(overlay_aux=False), dict(vis=False),
-       dict(hdr=False), dict(faceids='zeros'), dict(faceids='empty'), dict(origin_vertex=False),
+       dict(hdr=False), dict(faceids='zeros'), dict(faceids='empty'), dict(faceids='short'), dict(origin_vertex=False),
        dict(layout='chaos', fractional_bounds=True), dict(detail_shapes=True)]
     # side lumps (cleared by a look, restored only by the view's writer) at the values where they LOOK unused
     + [dict(aux='zero'), dict(aux='default'), dict(aux='mixed'), dict(aux='maxed'), dict(aux='absent'),
